@@ -363,6 +363,12 @@ func (cf *caseFn) eval(e ast.Expr, truth map[string]bool) tri {
 	if v, ok := truth[cf.canon(e)]; ok {
 		return triOf(v)
 	}
+	// a boolean local with a single definition is its definition
+	if id, ok := e.(*ast.Ident); ok && cf.isBool(id) {
+		if d := singleDef(cf.f, cf.info.Uses[id]); d != nil {
+			return cf.eval(d, truth)
+		}
+	}
 	return triUnknown
 }
 
